@@ -120,7 +120,45 @@ where
             }
         }
 
-        self.add_state(name.to_string(), OrSWotSet::default()).await
+        self.create_state_if_absent(name.to_string()).await
+    }
+
+    /// Creates a new, empty state for the keyspace unless another task has
+    /// registered one in the meantime, in which case that state is returned.
+    ///
+    /// All users of a keyspace must share one state, otherwise operations applied to
+    /// the instance which lost the race are never seen by peers.
+    async fn create_state_if_absent(
+        &self,
+        name: String,
+    ) -> ActorMailbox<KeyspaceActor<S>> {
+        let name: Cow<'static, str> = Cow::Owned(name);
+        let ts = self.clock.get_time().await;
+        let update_counter = Arc::new(AtomicCell::new(ts));
+
+        let state = super::spawn_keyspace(
+            name.clone(),
+            self.storage.clone(),
+            self.clock.clone(),
+            OrSWotSet::default(),
+            update_counter.clone(),
+        )
+        .await;
+
+        {
+            let mut guard = self.group.write();
+            if let Some(existing) = guard.get(&name) {
+                return existing.clone();
+            }
+            guard.insert(name.clone(), state.clone());
+        }
+
+        {
+            let mut guard = self.keyspace_timestamps.write();
+            guard.insert(name, update_counter);
+        }
+
+        state
     }
 
     /// Loads existing states from the given storage implementation.
